@@ -133,6 +133,10 @@ PROPS = {
                 technique="TLA+ specification (Sql.tla) + TLC trace validation against a recording in-memory database/sql driver",
                 rule="random frames x dialects (round trip) and random result sets; non-trivial = a ToSQL/ReadSQL event with >=2 driver calls; distinct by (arguments, calls, result digest)"),
     "C15": dict(level="fault_enumeration", nontrivial=nt_c15,
+                mc=[dict(name="CsvScanFault", module="CsvScan.tla", cfg="CsvScanFault.cfg", timeout=900),
+                    dict(name="CsvScanPinD7", module="CsvScan.tla", cfg="CsvScanPinD7.cfg", expect_violation="FaultReported"),
+                    dict(name="BufWrite", module="BufWrite.tla", cfg="BufWriteMC.cfg", timeout=900),
+                    dict(name="BufWritePinD6", module="BufWrite.tla", cfg="BufWritePinD6.cfg", expect_violation="FaultReported")],
                 text="Fault enumeration over ALL positions: for each document of a corpus (CSV incl. one crossing the 1 KiB scan buffer, JSON) ReadCSV / ReadJSON are executed once per byte offset at "
                      "which the io.Reader starts failing (error after, or together with, the last delivered bytes; several read fragmentations); for frames whose output stays below and exceeds 4096 and "
                      "8192 bytes ToCSV / ToJSON are executed once per number of bytes the io.Writer accepts before failing (quick: every 7th offset of the large outputs plus the buffer boundaries; "
@@ -213,6 +217,9 @@ PROPS = {
                 technique="TLA+ specification (Clause.tla LikeTruth) + TLC trace validation of harness executions",
                 rule="random UTF-8 cells x patterns derived from cells; non-trivial = a like/ilike filter event; distinct by (pattern, column, result digest)"),
     "C10": dict(level="model_checking", nontrivial=nt_c10,
+                mc=[dict(name="ErrMonad", module="ErrMonad.tla", cfg="ErrMonadMC.cfg", timeout=900),
+                    dict(name="ErrMonadEmit", module="ErrMonad.tla", cfg="ErrMonadEmit.cfg", emit=True, id_base=1000000),
+                    dict(name="ErrMonadDeep", module="ErrMonad.tla", cfg="ErrMonadDeep.cfg", tier="thorough", timeout=1800)],
                 text="The product (column of each type or unknown) x (16 comparators incl. unknown) x (every kind of value of the documented dynamic unions, valid or not) x "
                      "(plain / Not / inside Or / inside And) for Filter, predicates of every signature, a list of invalid requests for every other operation (Sort, Slice, Select, Copy, "
                      "Distinct, WithRowNums, empty And/Or, Apply, Eval, FilteredApply, GroupBy, Aggregate) and random chains are executed under recover, each followed by continuations "
@@ -237,6 +244,11 @@ PROPS = {
                 technique="TLA+ state machine over the family of frames (QFTrace.tla) + TLC trace validation with re-observation of all earlier members",
                 rule="random histories over random frames (0..40 rows quick, ..200 thorough); non-trivial = an event that re-observes >=2 earlier members; distinct by (operation, arguments, result digest)"),
     "C06": dict(level="model_checking", nontrivial=nt_c06,
+                mc=[dict(name="ColPos", module="ColPos.tla", cfg="ColPosMC.cfg", timeout=900),
+                    dict(name="ColPosPinD16", module="ColPos.tla", cfg="ColPosPinD16.cfg", expect_violation="PosConsistent"),
+                    dict(name="ColPosPinSelect", module="ColPos.tla", cfg="ColPosPinSelect.cfg", expect_violation="PosConsistent"),
+                    dict(name="ColPosEmit", module="ColPos.tla", cfg="ColPosEmit.cfg", emit=True, id_base=1000000)],
+
                 text="Every Apply / FilteredApply / WithRowNums call of the generated scenarios (programs of up to 8 instructions over every supported signature, "
                      "constants, column copies, built-in ToUpper, sources and destinations overlapping, on frames with arbitrary physical index; every FilteredApply "
                      "clause shape of C02) is executed on the real library and compared by TLC with ApplySem / FilteredApplySem / WithRowNumsSem (spec/ApplyEval.tla), "
@@ -309,6 +321,10 @@ PROPS = {
                 rule="random frames (0..300 rows, all column types, nulls, derived by sort/slice/filter/distinct) x random clause trees (depth <=3 quick, <=5 thorough); "
                      "non-trivial = the result keeps >=1 row and the clause has >=2 leaves; distinct by (clause, result digest)"),
     "C08": dict(level="model_checking", nontrivial=nt_c08,
+                mc=[dict(name="ColPos", module="ColPos.tla", cfg="ColPosMC.cfg", timeout=900),
+                    dict(name="ColPosPinD16", module="ColPos.tla", cfg="ColPosPinD16.cfg", expect_violation="PosConsistent"),
+                    dict(name="ColPosPinSelect", module="ColPos.tla", cfg="ColPosPinSelect.cfg", expect_violation="PosConsistent"),
+                    dict(name="ColPosEmit", module="ColPos.tla", cfg="ColPosEmit.cfg", emit=True, id_base=1000000)],
                 text="Every New / Select / Drop / Slice / Copy call of the emitted and generated scenarios is executed on the real library and "
                      "its observed result is compared by TLC with NewSem / SelectSem / DropSem / SliceSem / CopySem of spec/Ops.tla applied to the "
                      "specification's own state; the length/order/enum configuration space of New is enumerated completely for <=3 columns of length 0..2.",
